@@ -44,8 +44,10 @@ def qlit(x):
         n, d = x.numerator, x.denominator
     else:
         x = float(x)
-        if x != x or x in (float("inf"), float("-inf")):
-            raise ValueError("non-finite value cannot be given to the model: %r" % x)
+        if x != x:
+            return "(qz 1000000000000000000000000000007)"      # NaN: a sentinel no model value can be close to
+        if x in (float("inf"), float("-inf")):
+            return "(qz %s1000000000000000000000000000000)" % ("" if x > 0 else "-") if x > 0 else "(qz (-1000000000000000000000000000000))"
         if x == 0.0:
             return "z0"
         n, d = x.as_integer_ratio()
